@@ -357,6 +357,20 @@ func MockRecursiveSchemas() map[string]*ir.Request {
 			{Name: "maybe", Number: 6, Kind: "message", TypeName: P + "Node", Card: "optional"}}}),
 		"via_nested": mk(&ir.Message{Name: "Node", Nested: []*ir.Message{{Name: "Inner", Fields: []*ir.Field{{Name: "back", Number: 1, Kind: "message", TypeName: P + "Node"}, {Name: "ok", Number: 2, Kind: "bool"}}}},
 			Fields: []*ir.Field{{Name: "inner", Number: 1, Kind: "message", TypeName: P + "Node.Inner"}, {Name: "label", Number: 2, Kind: "string"}}}),
+		// a cycle of two types, EACH of them also the response of an RPC of its own (and of a second service): what is
+		// left unset depends on the path that led to a type, not on the type
+		"mutual_two_entries": func() *ir.Request {
+			rq := mk(&ir.Message{Name: "Node", Fields: []*ir.Field{{Name: "label", Number: 1, Kind: "string", Ann: ir.Ann{Examples: []string{"root"}}}, {Name: "edge", Number: 2, Kind: "message", TypeName: P + "Edge"}}},
+				&ir.Message{Name: "Edge", Fields: []*ir.Field{{Name: "weight", Number: 1, Kind: "int64", Ann: ir.Ann{Examples: []string{"7"}}}, {Name: "to", Number: 2, Kind: "message", TypeName: P + "Node"}}},
+				&ir.Message{Name: "Both", Fields: []*ir.Field{{Name: "first", Number: 1, Kind: "message", TypeName: P + "Edge"}, {Name: "second", Number: 2, Kind: "message", TypeName: P + "Node"}}})
+			f := rq.Files[0]
+			f.Services[0].Methods = append(f.Services[0].Methods,
+				&ir.Method{Name: "GetEdge", Input: ".rec.v1.Req", Output: ".rec.v1.Edge", Config: &ir.HTTPConfig{Path: "/e", Method: "POST"}},
+				&ir.Method{Name: "GetBoth", Input: ".rec.v1.Req", Output: ".rec.v1.Both", Config: &ir.HTTPConfig{Path: "/b", Method: "POST"}})
+			f.Services = append(f.Services, &ir.Service{Name: "Other", BasePath: "/o", Methods: []*ir.Method{
+				{Name: "Featured", Input: ".rec.v1.Req", Output: ".rec.v1.Edge", Config: &ir.HTTPConfig{Path: "/f", Method: "POST"}}}})
+			return rq
+		}(),
 		// recursion through a repeated field only: the emitter skips repeated message fields
 		"repeated_only": mk(&ir.Message{Name: "Node", Fields: []*ir.Field{{Name: "label", Number: 1, Kind: "string"}, {Name: "kids", Number: 2, Kind: "message", TypeName: P + "Node", Card: "repeated"}}}),
 	}
